@@ -1411,6 +1411,9 @@ static void check_waits(struct waits *w, const char *who, int widx)
 
 /* ------------------------------------------------------------------ stuck detector */
 
+#if VP_TSAN
+__attribute__((no_sanitize("thread")))
+#endif
 static int confirm_stuck(char *buf, size_t len)
 {
 	uint64_t calls = 0, rets = 0;
@@ -1429,7 +1432,24 @@ static int confirm_stuck(char *buf, size_t len)
 				fprintf(stderr, " thr%d=%#lx(hdepth %d, region %s, in_section %d)", i, VP_LOAD(*wa), VP_LOAD(thr[i].hdepth),
 					region_names[VP_LOAD(thr[i].region)], VP_LOAD(thr[i].in_section));
 		}
-		fprintf(stderr, "\n");
+		fprintf(stderr, " gp.ctr=%#lx\n", (unsigned long) VP_LOAD(rcu_gp.ctr));
+		{
+			/* are the readers themselves alive?  (sections completed / handlers run in 2 s) */
+			uint64_t s0[MAX_THR], h0[MAX_THR];
+			for (int i = 0; i < nthr; i++) {
+				s0[i] = VP_LOAD(thr[i].secs[0].total);
+				h0[i] = VP_LOAD(thr[i].async_total) + VP_LOAD(thr[i].traps_total);
+			}
+			sleep(2);
+			fprintf(stderr, "sigrd: stuck: in the following 2 s:");
+			for (int i = 0; i < nthr; i++)
+				fprintf(stderr, " thr%d: %llu sections, %llu signals;", i,
+					(unsigned long long) (VP_LOAD(thr[i].secs[0].total) - s0[i]),
+					(unsigned long long) (VP_LOAD(thr[i].async_total) + VP_LOAD(thr[i].traps_total) - h0[i]));
+			fprintf(stderr, "\n");
+		}
+		if (vp_arg_long("wd-pause", 0))
+			sleep(600);	/* diagnostic: leave the process for a debugger */
 		snprintf(buf, len, "hang:c19:%s", cfgname);
 		return 1;
 	}
